@@ -1075,7 +1075,10 @@ impl<'a> GeneratorState<'a> {
                 let v = self.compiler_state.get_variable(name);
                 match v.var_type {
                     VariableType::CharPtr => {
+                        // Strobes are protected, and thus cannot be optimized out
+                        self.protected = true;
                         self.asm(STA, &ExprType::Absolute(name.clone(), true, 0), pos, false)?;
+                        self.protected = false;
                         Ok(())
                     }
                     _ => Err(self
@@ -1090,6 +1093,10 @@ impl<'a> GeneratorState<'a> {
     }
 
     fn generate_csleep_statement(&mut self, cycles: i32, pos: usize) -> Result<(), Error> {
+        // Timing instructions are protected, and thus cannot be optimized out.
+        // DEC and PLA modify the N and Z flags
+        self.protected = true;
+        self.flags = FlagsState::Unknown;
         match cycles {
             2 => self.sasm_protected(NOP)?,
             3 => self.asm(
@@ -1148,11 +1155,13 @@ impl<'a> GeneratorState<'a> {
                 )?
             }
             _ => {
+                self.protected = false;
                 return Err(self
                     .compiler_state
-                    .syntax_error("Unsupported cycle sleep value", pos))
+                    .syntax_error("Unsupported cycle sleep value", pos));
             }
         };
+        self.protected = false;
         Ok(())
     }
 
@@ -1174,6 +1183,10 @@ impl<'a> GeneratorState<'a> {
             _ => self.asm(if load { LDA } else { STA }, expr, pos, false)?,
         };
         self.protected = false;
+        if load {
+            // The load modifies the N and Z flags
+            self.flags = FlagsState::Unknown;
+        }
         Ok(())
     }
 
